@@ -199,4 +199,92 @@ theorem chargeBody_fixed_cases (fix : Bool) (st : CState) (mp : Iso.Dict) (st' :
               exact Or.inr ⟨a1, a2, m1, by simp [hfix, h1], h2, hm1, hm2⟩
     · simp at h
 
+/-! ## one `morgan_rules` application and its deferred `+1` -/
+
+/-- the `morgan_rules` body on a mapping: either nothing happens, or it wrote `0` to the source atom (`mapping[3]` if `fix` else
+    `mapping[1]`) and queued the pair `(mapping[1], mapping[2], fix)` -/
+theorem chargeBody_morgan_cases (fix : Bool) (st : CState) (mp : Iso.Dict) (st' : CState)
+    (h : chargeBody true fix st mp = some st') :
+    (st'.mol = st.mol ∧ st'.pairs = st.pairs) ∨ ∃ s a1 a2, mp.lookup (if fix then 3 else 1) = some s ∧ mp.lookup 1 = some a1 ∧
+      mp.lookup 2 = some a2 ∧ setCharge st.mol s 0 = some st'.mol ∧ st'.pairs = st.pairs ++ [(a1, a2, fix)] := by
+  unfold chargeBody at h
+  simp only at h
+  split at h
+  · simp only [Option.some.injEq] at h; subst h; exact Or.inl ⟨rfl, rfl⟩
+  · split at h
+    · rename_i a1 a2 h1 h2
+      split at h
+      · simp at h
+      · simp only [Option.some.injEq] at h; subst h; exact Or.inl ⟨rfl, rfl⟩
+      · split at h
+        · simp at h
+        · simp only [Option.some.injEq] at h; subst h; exact Or.inl ⟨rfl, rfl⟩
+        · split at h
+          · rename_i hfix
+            split at h
+            · simp at h
+            · rename_i a3 h3
+              split at h
+              · simp at h
+              · rename_i m1 hm1
+                simp only [if_true, Option.some.injEq] at h
+                subst h
+                exact Or.inr ⟨a3, a1, a2, by simp [hfix, h3], h1, h2, hm1, by simp [hfix]⟩
+          · rename_i hfix
+            split at h
+            · simp at h
+            · rename_i m1 hm1
+              simp only [if_true, Option.some.injEq] at h
+              subst h
+              have hf : fix = false := by simpa using hfix
+              exact Or.inr ⟨a1, a1, a2, by simp [hf, h1], h1, h2, hm1, by simp [hf]⟩
+    · simp at h
+
+/-- `applyPairs` on one pair: `+1` goes to `a2` or to `a1`, by the ranking -/
+theorem applyPairs_one (order : List (Nat × Nat)) (a1 a2 : Nat) (fix : Bool) (m m' : Mol) (ch ch' : List Nat)
+    (h : applyPairs order [(a1, a2, fix)] m ch = some (m', ch')) :
+    setCharge m a2 1 = some m' ∨ setCharge m a1 1 = some m' := by
+  rw [applyPairs] at h
+  split at h
+  · split at h
+    · split at h
+      · simp at h
+      · rename_i m1 h1
+        simp only [applyPairs, Option.some.injEq, Prod.mk.injEq] at h
+        exact Or.inl (h.1 ▸ h1)
+    · split at h
+      · simp at h
+      · rename_i m1 h1
+        simp only [applyPairs, Option.some.injEq, Prod.mk.injEq] at h
+        exact Or.inr (h.1 ▸ h1)
+  · simp at h
+
+
+theorem atom?_setCharge_self {m m' : Mol} {n : Nat} {c : Int} (h : setCharge m n c = some m') :
+    ∃ a, m.atom? n = some a ∧ m'.atom? n = some { a with charge := c } := by
+  unfold setCharge at h
+  split at h
+  · simp at h
+  · rename_i a ha
+    simp only [Option.some.injEq] at h
+    subst h
+    exact ⟨a, ha, by rw [atom?_updAtom, ha]; simp⟩
+
+/-- writing `+1` on an atom whose current charge is `0` after `0` was written on an atom whose charge was `+1` -/
+theorem move_one_charge {m m1 m2 : Mol} {s t : Nat} (hnd : m.ids.Nodup) (as : Atom) (has : m.atom? s = some as) (hs1 : as.charge = 1)
+    (h1 : setCharge m s 0 = some m1) (h2 : setCharge m1 t 1 = some m2)
+    (ht : t = s ∨ ∃ at', m.atom? t = some at' ∧ at'.charge = 0) : netCharge m2 = netCharge m := by
+  have e1 := netCharge_setCharge as hnd has h1
+  have hnd1 : m1.ids.Nodup := by rw [setCharge_ids h1]; exact hnd
+  by_cases hts : t = s
+  · subst hts
+    obtain ⟨a, ha, ha1⟩ := atom?_setCharge_self h1
+    have e2 := netCharge_setCharge _ hnd1 ha1 h2
+    rw [e2, e1, hs1]; simp only; omega
+  · rcases ht with rfl | ⟨at', hat, hat0⟩
+    · exact absurd rfl hts
+    · have hat1 : m1.atom? t = some at' := by rw [atom?_setCharge_ne hts h1]; exact hat
+      have e2 := netCharge_setCharge at' hnd1 hat1 h2
+      rw [e2, e1, hs1, hat0]; omega
+
 end ChythonModel.Proofs.C14
